@@ -71,6 +71,10 @@ void run_num(const Execution &ex) {
         else if (op == "Sub") o -= Conv<T>::to(v);
         else if (op == "Mul") o *= (T) v;          // factors and divisors are plain numbers, not quarters
         else if (op == "Div") o /= (T) v;
+        else if (op == "AddF") o += (double) v / 2;   // an operand of another arithmetic type
+        else if (op == "SubF") o -= (double) v / 2;
+        else if (op == "MulF") o *= (double) v / 2;
+        else if (op == "DivF") o /= (double) v / 2;
         else if (op == "Apply") {
             std::string f = st.str("f");
             if (f == "id") o.apply([](T &) {});
